@@ -225,6 +225,23 @@ def run(ctx):
                     ok2, why2 = False, "the arguments visited are %s" % show(coll)[:50]
                 if it is not None and mentions(it, lambda t: t[0] == "call" and t[1].endswith("::rev")):
                     ok2, why2 = False, "the arguments are visited backwards"
+    # cause of failure: apart from the final unification, append gives up only on the number of its arguments
+    ok5, why5, n5 = True, "", 0
+    for p in ps:
+        if p.end != "return" or not is_none(p.ret):
+            continue
+        n5 += 1
+        brs = [e for e in p.events if e["k"] == "branch" and not e.get("inl")]
+        if not brs:
+            continue
+        c = strip(brs[-1]["cond"])
+        about_elements = mentions(c, lambda t: t == ssp) or mentions(c, lambda t: lookup(t) is not None) or lookup(c) is not None or \
+            mentions(c, lambda t: t[0] == "field" and t[2].startswith("SLinkedList."))
+        if about_elements:
+            ok5, why5 = False, ("append fails (returns None, line %d) on a condition about its arguments' contents or the substitution "
+                                "set — `%s` — not only when the final unification fails" % (brs[-1]["line"], show(c)[:70]))
+    ctx.ob("R3", "fails-only-on-arity-or-unification", ok5, ctx.where(F), why5 or
+           "%d None-returning path(s), each decided by the number of arguments alone" % n5)
     ctx.ob("R1", "list-arguments-by-tail-following-walk", ok1 and n1 > 0, ctx.where(F), why1 or
            "%d contribution(s): single terms pushed, list arguments through %s" % (n1, sorted(x.split("::")[-1] for x in following)))
     ctx.ob("R2", "arguments-in-order", ok2 and n2 > 0, ctx.where(F), why2 or
